@@ -15,7 +15,10 @@ for lg in logs:
             checks[cm.group(1)] = {"exit": int(cm.group(2)), "signatures": [s for s in cm.group(3).split(";") if s]}
         res[(pid, n)] = dict(demo_clean=dc, suite=suite, demo_patched=dp, checks=checks)
 for (pid, n), r in sorted(res.items()):
-    src = "/tmp/seed-%s/out/%s" % (pid, n)
+    off = int(os.environ.get("SEED_OFFSET", "0"))
+    src = "%s%s/out/%s" % (os.environ.get("SEED_PREFIX", "/tmp/seed-"), pid, int(n) - off)
+    if off and int(n) <= off:
+        continue
     if not os.path.isdir(src):
         continue
     ok = r["demo_clean"] == "pass" and r["suite"] == "ok" and r["demo_patched"] == "fail"
